@@ -757,12 +757,6 @@ def run_check(tier, seed):
         k2path = os.path.join(wd, 'known_fb22.nc')
         replay_ops += ['create %s 1 0 0 0 0' % k2path, 'putatt -1 4acc88 2 1 41', 'defdim 42ccad 2', 'enddef', 'snap ' + k2path, 'close']
         script = os.path.join(wd, 'script.txt')
-        with open(script, 'w') as f:
-            for sc in scen:
-                for line, _ in sc['ops']:
-                    f.write(line + '\n')
-            for line in replay_ops:
-                f.write(line + '\n')
         ranks = [1, 2, 3] if tier == 'quick' else [1, 2, 3, 4]
         tie_diffs, prop_fail, spec_q = [], [], []
         evals, distinct = 0, set()
@@ -781,36 +775,73 @@ def run_check(tier, seed):
                         open(sc['path'] + '.target', 'wb').write(big)
                         os.symlink(sc['path'] + '.target', sc['path'])
             t1 = Timer()
-            rc, so, se = mpirun(n, [api, script, os.path.join(wd, 'out%d' % n)], timeout=900)
-            outs = []
-            for r in range(n):
-                try:
-                    outs.append(open(os.path.join(wd, 'out%d.%d' % (n, r))).read().split('\n')[:-1])
-                except OSError:
-                    outs.append([])
+            outs = [[] for _ in range(n)]
+            crashed = set()
+            start_s, restarts = 0, 0
             total = sum(len(sc['ops']) for sc in scen) + len(replay_ops)
-            log('[S4] API harness: %d script lines, %d scenarios on %d rank(s) in %.1fs' % (total, len(scen), n, t1.s()))
-            if rc != 0 or any(len(o) != total for o in outs):
-                done = min(len(o) for o in outs) if outs else 0
-                # which op did it die on?
-                k, culprit = 0, None
-                for sc in scen:
-                    for line, _ in sc['ops']:
-                        if k == done:
-                            culprit = (sc, line)
-                        k += 1
-                V.cov['evaluations'] = evals + done
-                if culprit and V.failing_input('C03:crash', 'the library crashed or hung while executing a valid define/write history',
-                                               dict(ranks=n, rc=rc, line=culprit[1][:500], script=[l for l, _ in culprit[0]['ops']][:400],
-                                                    stderr=(so + se)[-600:]), tag='crash%d' % n):
-                    pass
-                else:
-                    V.broken_tie('harness c03_api crashed or timed out', dict(ranks=n, rc=rc, done=done, total=total, stderr=(so + se)[-600:]))
-                return V.finish()
+            while True:
+                with open(script, 'w') as f:
+                    for sc in scen[start_s:]:
+                        for line, _ in sc['ops']:
+                            f.write(line + '\n')
+                    for line in replay_ops:
+                        f.write(line + '\n')
+                for r in range(n):
+                    try:
+                        os.unlink(os.path.join(wd, 'out%d.%d' % (n, r)))
+                    except OSError:
+                        pass
+                rc, so, se = mpirun(n, [api, script, os.path.join(wd, 'out%d' % n)], timeout=900)
+                got = []
+                for r in range(n):
+                    try:
+                        got.append(open(os.path.join(wd, 'out%d.%d' % (n, r))).read().split('\n')[:-1])
+                    except OSError:
+                        got.append([])
+                want = sum(len(sc['ops']) for sc in scen[start_s:]) + len(replay_ops)
+                if rc == 0 and all(len(g) == want for g in got):
+                    for r in range(n):
+                        outs[r] += got[r]
+                    break
+                # the library died or hung inside one scenario: a concrete failing history; go on after it
+                done = min(len(g) for g in got) if got else 0
+                k, cs = 0, None
+                for sj in range(start_s, len(scen)):
+                    L = len(scen[sj]['ops'])
+                    if done < k + L:
+                        cs = sj
+                        break
+                    k += L
+                if cs is None:
+                    V.cov['evaluations'] = evals + done
+                    V.broken_tie('harness c03_api crashed or timed out in the known-finding replays',
+                                 dict(ranks=n, rc=rc, done=done, total=want, stderr=(so + se)[-600:]))
+                    return V.finish()
+                culprit = scen[cs]['ops'][done - k][0]
+                prop_fail.append(('crash', scen[cs], dict(scenario=cs, ranks=n, rc=rc, line=culprit[:300]),
+                                  'the library crashed or hung (rc=%s) at `%s`' % (rc, culprit[:120])))
+                for r in range(n):
+                    outs[r] += got[r][:k] + ['CRASHED'] * len(scen[cs]['ops'])
+                crashed.add(cs)
+                start_s, restarts = cs + 1, restarts + 1
+                if restarts >= 3:
+                    # enough concrete failing histories: the rest of this pass is not run
+                    for sj in range(start_s, len(scen)):
+                        crashed.add(sj)
+                        for r in range(n):
+                            outs[r] += ['NOT-RUN'] * len(scen[sj]['ops'])
+                    for r in range(n):
+                        outs[r] += ['NOT-RUN'] * len(replay_ops)
+                    break
+            log('[S4] API harness: %d script lines, %d scenarios on %d rank(s) in %.1fs%s' %
+                (total, len(scen), n, t1.s(), (' (%d scenario(s) crashed)' % len(crashed)) if crashed else ''))
             pos = 0
             last_inq = None
             for si, sc in enumerate(scen):
                 last_inq = None
+                if si in crashed:
+                    pos += len(sc['ops'])
+                    continue
                 for oi, (line, exp) in enumerate(sc['ops']):
                     for r in range(n):
                         got = outs[r][pos].split()
@@ -867,6 +898,8 @@ def run_check(tier, seed):
                                           (len(fb), fin['end'], len(left), left[:3])))
                 distinct.add((si, tuple(sorted(sc['feats'])), sc['fmt'], tuple(sc['env'])))
             # replay FB2-1 (rank 0 answers of the two inquiries)
+            if outs[0][pos] == 'NOT-RUN':
+                continue
             a1 = outs[0][pos + 4].split()
             a2 = outs[0][pos + 7].split()
             evals += 2
